@@ -66,6 +66,11 @@ def responder_worker(analysis: Analysis, spec) -> dict:
             continue  # A-OTA-RANGE: stored firmware ids / block counts fit 16 bits
         pops, moves, parse_idx, first_mut = [], [], None, None
         parse_failed = False
+        parse_args = []
+        for e in s.events:
+            if e.kind == "enter" and e.name == "ota:fw_hex_to_int" and len(e.args) >= 2:
+                pay = s.mem.get((msg.key(), "a", "payload"))
+                parse_args.append((pay is not None and e.args[0].key() == pay.key(), e.args[1].value if isinstance(e.args[1], Const) else None))
         for i, e in enumerate(s.events):
             if e.kind == "call" and e.name in ("binascii.unhexlify", "struct.unpack"):
                 parse_idx = i if parse_idx is None else parse_idx
@@ -87,7 +92,7 @@ def responder_worker(analysis: Analysis, spec) -> dict:
         if replies and isinstance(v, Obj):
             sub = s.mem.get((v.key(), "a", "sub_type"))
             reply = {"sub": getattr(sub, "names", ("?",))[0] if sub is not None else "?", "is_copy": any(e.kind == "enter" and e.name == "message:Message.copy" and e.args and e.args[0].key() == msg.key() for e in s.events)}
-        rows.append({"kind": kind, "exc": v.cls.__name__ if kind == "raise" else None, "pops": pops, "moves": moves, "replies": replies, "hit": hit, "fw_found": fw_found, "parse_idx": parse_idx, "first_mut": first_mut, "parse_failed": parse_failed, "reply": reply, "witness": describe_path(out, 22)})
+        rows.append({"kind": kind, "exc": v.cls.__name__ if kind == "raise" else None, "pops": pops, "moves": moves, "replies": replies, "hit": hit, "fw_found": fw_found, "parse_idx": parse_idx, "first_mut": first_mut, "parse_failed": parse_failed, "parse_args": parse_args, "reply": reply, "witness": describe_path(out, 22)})
     return {"qual": qual, "ctx": ctx.name, "rows": rows}
 
 
@@ -107,7 +112,8 @@ def update_worker(analysis: Analysis, ctxspec) -> dict:
         pops = [(i, store_name(e.recv.key())) for i, e in enumerate(s.events) if e.kind == "dictpop" and isinstance(e.recv, V)]
         reboots = [(i, e) for i, e in enumerate(s.events) if e.kind == "store" and e.name == "reboot"]
         fw_known = any(f[0] == "in" and store_name(f[2]) == "firmware" for f in s.facts) or any(e.kind == "setitem" and isinstance(e.recv, V) and store_name(e.recv.key()) == "firmware" for e in s.events)
-        rows.append({"kind": kind, "req": [i for i, _e in req], "req_vals_tuple2": all(isinstance(e.args[1], TupleV) and len(e.args[1].items) == 2 for _i, e in req), "req_key_known": all(any(f[0] == "in" and f[1] == e.args[0].key() and render(f[2]).endswith("sensors") for f in (e.facts or ())) for _i, e in req), "pops": pops, "reboots": [(i, isinstance(e.args[0], Const) and e.args[0].value is True) for i, e in reboots], "fw_known": fw_known, "witness": describe_path(out, 22)})
+        node_known = any(f[0] == "in" and f[1] == nid.key() and render(f[2]).endswith("sensors") for f in s.facts)
+        rows.append({"kind": kind, "req": [i for i, _e in req], "req_vals_tuple2": all(isinstance(e.args[1], TupleV) and len(e.args[1].items) == 2 for _i, e in req), "req_key_known": all(any(f[0] == "in" and f[1] == e.args[0].key() and render(f[2]).endswith("sensors") for f in (e.facts or ())) for _i, e in req), "pops": pops, "reboots": [(i, isinstance(e.args[0], Const) and e.args[0].value is True) for i, e in reboots], "fw_known": fw_known, "node_known": node_known, "witness": describe_path(out, 22)})
     return {"ctx": ctx.name, "rows": rows}
 
 
@@ -161,6 +167,9 @@ def run(analysis: Analysis, tier: str) -> RuleResult:
             if r["kind"] == "raise":
                 res.add("C10-R4", f"{q} / malformed requests are ignored ({r['exc']} escapes)", False, "mysensors/ota.py", "the request raises instead of being ignored", r["witness"], context=summ["ctx"])
                 continue
+            words = 5 if q.endswith("config") else 3
+            ok_parse = bool(r["parse_args"]) and all(whole and n == words for whole, n in r["parse_args"])
+            res.add("C10-R4", f"{q} / the whole payload is parsed as {words} words", ok_parse, "mysensors/ota.py", "fw_hex_to_int(msg.payload, n): truncated, over-long or partly non-hex requests fail the parse" if ok_parse else f"the parser is not applied to the whole payload as {words} words ({r['parse_args']}): malformed requests are accepted", r["witness"] if not ok_parse else None, context=summ["ctx"])
             order = [p["store"] for p in r["pops"]]
             ok_order = order == sp["consults"][: len(order)] and all(p["key_is_node"] for p in r["pops"])
             res.add("C10-R2", f"{q} / consults {tuple(sp['consults'])} in order, keyed by the requesting node", ok_order, "mysensors/ota.py", f"consulted {order}", r["witness"] if not ok_order else None, context=summ["ctx"])
@@ -188,6 +197,9 @@ def run(analysis: Analysis, tier: str) -> RuleResult:
         for r in rows:
             if r["kind"] != "val":
                 continue
+            if r["node_known"] and r["fw_known"]:
+                ok = bool(r["req"]) and any(t for _i, t in r["reboots"])
+                res.add("C10-R2", "ota:OTAFirmware.make_update / every update call for a known node with firmware (re)schedules it and sets the reboot flag", ok, "mysensors/ota.py", "requested[node] stored and reboot set" if ok else "an update call for a known node with existing firmware returns without scheduling the node / setting the reboot flag (e.g. skipped as 'already requested')", r["witness"] if not ok else None, context=summ["ctx"])
             if r["req"]:
                 first_req = min(r["req"])
                 res.add("C10-R1", "ota:OTAFirmware.make_update / a node is scheduled only when the firmware exists", r["fw_known"], "mysensors/ota.py", "dominated by (type, version) in firmware", r["witness"] if not r["fw_known"] else None, context=summ["ctx"])
